@@ -1155,6 +1155,187 @@ def check_extra(c):
 
 
 # --------------------------------------------------------------------------
+# histories on ONE table object: reads interleaved with state changes (stale caches are the class to catch)
+# --------------------------------------------------------------------------
+READS = ["array", "to_list", "iter", "len_shape", "header", "write_tsv", "write_csv", "write_csv_gz", "to_csv", "slice", "to_dict", "columns"]
+
+
+def gen_history(rng):
+    n = rng.choice([1, 2, 3, 4, 6])
+    m = rng.choice([2, 3, 4])
+    names = rng.sample(IDENT, m)
+    kinds = [rng.choice(["int", "str", "str", "float", "bool"]) for _ in names]
+    t = gen_table(rng, nrows=n, names=names, kinds=kinds, index=False)
+    # at least two columns with unique values, usable as index_name
+    for j in rng.sample(range(m), 2):
+        t["cols"][j] = rng.sample(["r%d" % i for i in range(n + 3)], n)  # (str labels: int labels shadow row positions)
+    t["title"] = ""
+    uniq = [h for h, c in zip(t["header"], t["cols"]) if len({canon(v) for v in c}) == n and all(isinstance(v, str) for v in c)]
+    steps = []
+    fresh = iter(["new1", "new2", "new3", "new4"])
+    live = list(names)
+    for _ in range(rng.choice([3, 4, 6, 8])):
+        r = rng.random()
+        if r < 0.5:
+            steps.append(["read", rng.choice(READS)])
+        elif r < 0.72:
+            cand = [h for h in uniq if h in live]
+            steps.append(["index_name", rng.choice(cand + [None]) if cand else None])
+        elif r < 0.78:
+            steps.append([rng.choice(["title", "legend"]), rng.choice(["", "T", "a title"])])
+        elif r < 0.84:
+            steps.append(["format_column", rng.choice(live), "%s"])
+        elif r < 0.91:
+            nm = rng.choice([next(fresh, "newX"), rng.choice(live)])
+            steps.append(["set_column", nm, gen_column(rng, rng.choice(["int", "str"]), n)])
+            if nm not in live:
+                live.append(nm)
+            if nm in uniq:
+                uniq.remove(nm)
+        elif r < 0.95 and len(live) > 2:
+            nm = rng.choice(live)
+            steps.append(["del_column", nm])
+            live.remove(nm)
+        else:
+            old = rng.choice(live)
+            new = next(fresh, "newY")
+            steps.append(["with_new_header", old, new])
+            live[live.index(old)] = new
+            if old in uniq:
+                uniq[uniq.index(old)] = new
+        steps.append(["read", rng.choice(READS)])
+    return dict(t=t, steps=steps)
+
+
+def check_history(ctx, hist, counter=[0]):
+    """replays the history on one real Table and on the plain state (header, columns, index, title, legend);
+    every read is compared with what the current state says.  returns None or (what, expected, got, sig)"""
+    import gzip
+
+    import numpy
+
+    td = hist["t"]
+    H = list(td["header"])
+    C = {h: list(c) for h, c in zip(H, td["cols"])}
+    index, title, legend = None, "", ""
+    last = "start"
+    done = []
+    try:
+        t = real_table(td)
+    except Exception as e:  # noqa: BLE001
+        return (f"make_table raised {e!r}", "table", repr(e), "history:make_table")
+
+    def order():
+        return list(H)  # (setting index_name moves that column to the front of the CURRENT order, see below)
+
+    def rows():
+        o = order()
+        n = len(C[o[0]]) if o else 0
+        return [[C[h][i] for h in o] for i in range(n)]
+
+    for step in hist["steps"]:
+        done.append(step)
+        k = step[0]
+        try:
+            if k == "index_name":
+                if step[1] is not None and (step[1] not in H or len({canon(v) for v in C[step[1]]}) != len(C[step[1]])):
+                    continue
+                if step[1] is None and index is not None:
+                    continue  # (un-setting an index is not part of the histories)
+                t.index_name = step[1]
+                index = step[1]
+                if index is not None:
+                    H[:] = [index] + [h for h in H if h != index]
+                last = "index_name"
+            elif k in ("title", "legend"):
+                setattr(t, k, step[1])
+                if k == "title":
+                    title = step[1]
+                else:
+                    legend = step[1]
+                last = k
+            elif k == "format_column":
+                if step[1] in H and C[step[1]]:
+                    t.format_column(step[1], step[2])
+                    last = "format_column"
+            elif k == "set_column":
+                if step[1] == index:
+                    continue
+                t.columns[step[1]] = list(step[2])
+                if step[1] not in H:
+                    H.append(step[1])
+                C[step[1]] = list(step[2])
+                last = "set_column"
+            elif k == "del_column":
+                if step[1] == index or step[1] not in H or len(H) <= 1:
+                    continue
+                del t.columns[step[1]]
+                H.remove(step[1])
+                del C[step[1]]
+                last = "del_column"
+            elif k == "with_new_header":
+                if step[1] == index or step[1] not in H or step[2] in H:
+                    continue
+                t = t.with_new_header(step[1], step[2])
+                H[H.index(step[1])] = step[2]
+                C[step[2]] = C.pop(step[1])
+                last = "with_new_header"
+            else:  # a read
+                what = step[1]
+                exp_rows, exp_hdr = rows(), order()
+                got = None
+                if what == "array":
+                    got, exp = t.array.tolist(), exp_rows
+                elif what == "to_list":
+                    got, exp = table_rows(t), exp_rows
+                elif what == "iter":
+                    got, exp = [list(r.array.tolist()) for r in t], exp_rows
+                elif what == "len_shape":
+                    got, exp = [len(t), list(t.shape)], [len(exp_rows), [len(exp_rows), len(exp_hdr)]]
+                elif what == "header":
+                    got, exp = list(t.header), exp_hdr
+                elif what == "columns":
+                    got, exp = {h: t.columns[h].tolist() for h in t.header}, {h: C[h] for h in exp_hdr}
+                    got, exp = [[h, got[h]] for h in got], [[h, exp[h]] for h in exp]
+                elif what == "to_dict":
+                    d = t.columns.to_dict()
+                    got, exp = [[h, d[h]] for h in t.header], [[h, C[h]] for h in exp_hdr]
+                elif what == "slice":
+                    if not exp_rows:
+                        continue
+                    r = t[0 : max(1, len(exp_rows) - 1)]
+                    got, exp = [list(r.header), table_rows(r)], [exp_hdr, exp_rows[0 : max(1, len(exp_rows) - 1)]]
+                elif what == "to_csv":
+                    got = py_csv_read(t.to_csv() + "\n", ",")
+                    keep = [j for j, h in enumerate(exp_hdr) if all(isinstance(v, (str, int)) for v in C[h])]
+                    if len(keep) != len(exp_hdr):
+                        continue  # floats are formatted to `digits`
+                    exp = [exp_hdr] + [[expected_text(v) for v in r] for r in exp_rows]
+                else:  # write_tsv / write_csv / write_csv_gz
+                    counter[0] += 1
+                    ext = {"write_tsv": "tsv", "write_csv": "csv", "write_csv_gz": "csv.gz"}[what]
+                    path = ctx.scratch / f"h{counter[0]}.{ext}"
+                    t.write(str(path))
+                    op = gzip.open if ext.endswith("gz") else open
+                    with op(path, "rt", newline="") as f:
+                        text = f.read()
+                    path.unlink()
+                    got = py_csv_read(text, "\t" if ext == "tsv" else ",")
+                    exp = ([[title]] if title else []) + [exp_hdr] + [[expected_text(v) for v in r] for r in exp_rows] + ([[legend]] if legend else [])
+                if canon(got) != canon(exp):
+                    return (
+                        f"history: {what} after {last} differs from the table's current state (steps so far: {show(done)})",
+                        show(exp), show(got), f"history:{what.split('_')[0]}:after-{last}",
+                    )
+        except (SystemExit, KeyboardInterrupt):
+            raise
+        except Exception as e:  # noqa: BLE001
+            return (f"history: step {step[:2]} after {last} raised {type(e).__name__}: {str(e)[:120]}", "no exception", repr(e)[:200],
+                    f"history:{k if k != 'read' else step[1].split('_')[0]}:raises:{type(e).__name__}:after-{last}")
+    return None
+
+
+# --------------------------------------------------------------------------
 # file round trips
 # --------------------------------------------------------------------------
 def expected_text(v):
@@ -1215,6 +1396,16 @@ def is_plain(td):
 
 def gen_variant(rng, td):
     """how the table is written and loaded"""
+    v = _gen_variant(rng, td)
+    if rng.random() < 0.6:
+        v["load_kw"] = {k: val for k, val in dict(
+            static_column_types=rng.choice([True, False]), format=rng.choice(["simple", "md", "tsv"]), digits=rng.choice([1, 4, 9]),
+            space=rng.choice([1, 4]), max_width=rng.choice([10, 1e100]),
+        ).items() if rng.random() < 0.5}
+    return v
+
+
+def _gen_variant(rng, td):
     r = rng.random()
     nrows = len(td["cols"][0]) if td["cols"] else 0
     if r < 0.3:
@@ -1250,9 +1441,10 @@ def check_file(ctx, td, fmt, variant=None, counter=[0]):
     sep = v.get("sep")
     dsep = sep or {"tsv": "\t", "csv": ","}.get(base)
     index = td.get("index")
+    make_index = None if td.get("index_at_load_only") else index
     vtag = "+".join(k for k in ("sep", "limit", "inconsistent", "reader", "writer") if k in v) or "plain"
     try:
-        t = make_table(header=list(H), data={h: list(c) for h, c in zip(H, td["cols"])}, title=td.get("title", ""), legend=td.get("legend", ""), index_name=index)
+        t = make_table(header=list(H), data={h: list(c) for h, c in zip(H, td["cols"])}, title=td.get("title", ""), legend=td.get("legend", ""), index_name=make_index)
         if v.get("writer"):
             t.write(str(path), writer=separator_formatter(sep=dsep))
         elif sep is not None:
@@ -1270,6 +1462,8 @@ def check_file(ctx, td, fmt, variant=None, counter=[0]):
         raise
     except Exception as e:  # noqa: BLE001
         return (f"write({fmt}, {vtag}) raised {type(e).__name__}: {e}", "file written", repr(e), f"write:{base}:{vtag}:raises:{type(e).__name__}")
+    if not delimited and td.get("index_at_load_only"):
+        index = None  # json / pickle carry the table's own index_name (none here)
     if index is not None:
         td = norm(td)
         H = td["header"]
@@ -1290,6 +1484,8 @@ def check_file(ctx, td, fmt, variant=None, counter=[0]):
             kw["skip_inconsistent"] = True
         if v.get("reader"):
             kw = dict(reader=FilteringParser(sep=dsep, with_header=True), **({"index_name": index} if index is not None else {}))
+        if delimited:
+            kw.update(v.get("load_kw") or {})  # arguments that must not change the data
         r = load_table(str(path), **kw)
         if v.get("inconsistent") == "raise":
             return (f"load_table({fmt}) accepted a row with a different number of fields", "ValueError", list(r.shape), f"load:delimited:{vtag}:accepted")
@@ -1339,7 +1535,9 @@ def check_file(ctx, td, fmt, variant=None, counter=[0]):
                 okv = isinstance(w, (int, float, complex)) and not isinstance(w, bool) and (canon(w) == canon(n))
                 if all_int and not isinstance(w, int):
                     okv = False  # a column of integer texts comes back as ints (text unchanged), not as 1.0
-                if not okv and loaded_text(w) != e:
+                # a column that was written from numbers must come back as numbers, whichever column it is (index
+                # column included); a text column that merely looks numeric may also come back with its text
+                if not okv and (col_kind(col) == "num" or loaded_text(w) != e):
                     return (f"{fmt}: numeric column {h!r} not restored as numbers", E, show(got), f"load:{kind}:numeric-column")
             continue
         for e, w in zip(E, got):
@@ -1812,6 +2010,17 @@ def spec_check(ctx, budget):
             fail(f[0], dict(kind="extra", case=c), f[1], f[2], f[3])
         else:
             out["nontrivial"].add(("extra", repr(c)[:300]))
+    # histories on one table object
+    hrng = ctx.subrng(f"hist{budget}")
+    for _ in range(500 * budget):
+        hcase = gen_history(hrng)
+        out["evaluations"] += 1
+        bump(out, "history_steps", len(hcase["steps"]))
+        f = check_history(ctx, hcase)
+        if f:
+            fail(f[0], dict(kind="history", hist=hcase), f[1], f[2], f[3])
+        else:
+            out["nontrivial"].add(("hist", repr(hcase)[:300]))
     # file round trips
     frng = ctx.subrng(f"file{budget}")
     tables = [gen_file_table(frng) for _ in range(150 * budget)]
@@ -1827,10 +2036,14 @@ def spec_check(ctx, budget):
         dict(header=["k", "v"], cols=[["r1", "r2"], [1, 2]], title="", legend="", index="k"),
     ]
     for ti, td in enumerate(tables):
-        if ti % 5 == 0 and td["header"] and "index" not in td and td["cols"]:  # typed formats keep index_name, delimited get it passed
+        if ti % 3 == 0 and td["header"] and "index" not in td and td["cols"]:  # typed formats keep index_name, delimited get it passed
             n = len(td["cols"][0]) if td["cols"] else 0
-            td["cols"][0] = ["row %d" % i for i in range(n)]
-            td["index"] = td["header"][0]
+            j = frng.randrange(len(td["header"]))  # the index column need not be the first one, nor text
+            td["cols"][j] = frng.choice([["row %d" % i for i in range(n)], [10 * i + 3 for i in range(n)], [i + 0.5 for i in range(n)],
+                                         [str(7 * i + 10) for i in range(n)]])
+            td["index"] = td["header"][j]
+            if frng.random() < 0.5:
+                td["index_at_load_only"] = True  # index_name is an argument of load_table, not a property of the written table
         runs = [(fmt, None) for fmt in FORMATS]
         for _ in range(3):
             v = gen_variant(frng, td)
@@ -1862,7 +2075,9 @@ def spec_check(ctx, budget):
 # findings
 # --------------------------------------------------------------------------
 def _check_input(ctx, inp):
-    if inp.get("kind") == "extra":
+    if inp.get("kind") == "history":
+        f = check_history(ctx, inp["hist"])
+    elif inp.get("kind") == "extra":
         f = check_extra(inp["case"])
     elif inp.get("kind") == "format":
         f = check_format_text(ctx, inp["table"], inp["how"])
